@@ -12,7 +12,10 @@ sys.path.insert(0, os.path.join(ROOT, "lib"))
 props = [json.loads(l)["id"] for l in open(os.path.join(ROOT, "properties.jsonl"))]
 checks = []
 claimed = set()
+integrated = set(json.load(open(os.path.join(ROOT, "tools", "claimed.json"))))
 for pid in props:
+    if pid not in integrated:
+        continue
     if not os.path.exists(os.path.join(ROOT, "checks", f"{pid}.py")):
         continue
     mod = importlib.import_module(f"checks.{pid}")
